@@ -216,7 +216,25 @@ replay_predicate = predicate
 
 
 @st.composite
+def title_collision_cases(draw):
+    """Several DIFFERENT object schemas whose titles collide with each other and with the names de-duplication hands
+    out (T, T, T_1, T_1, T_2, T_1_1): the names the first parse settles on must survive every further round trip."""
+    base = draw(st.sampled_from(["Foo", "my title", "Address", "object"]))
+    fam = [base, base, base + "_1", base + "_1", base + "_2", base + "_1_1", base + "_2_1", base + " 1"]
+    titles = draw(st.lists(st.sampled_from(fam), min_size=2, max_size=5))
+    props = {}
+    for i, t in enumerate(titles):
+        obj = {"type": "object", "title": t, "properties": {"q%d" % i: {"type": draw(st.sampled_from(["string", "integer"]))}}}
+        where = draw(st.sampled_from(["prop", "prop", "items", "anyOf"]))
+        props["p%d" % i] = {"prop": obj, "items": {"type": "array", "items": obj},
+                           "anyOf": {"anyOf": [obj, {"type": "null"}]}}[where]
+    return {"schema": {"type": "object", "title": draw(st.sampled_from(["Root", base])), "properties": props}}
+
+
+@st.composite
 def cases(draw):
+    if draw(st.integers(0, 6)) == 0:
+        return draw(title_collision_cases())
     schema = draw(sg.schemas(cfg()))
     case = {"schema": schema}
     if isinstance(schema, dict) and draw(st.integers(0, 3)) == 0:
